@@ -10,7 +10,8 @@ export OMP_NUM_THREADS=2 MKL_NUM_THREADS=2 PYTHONDONTWRITEBYTECODE=1
 cd $wt || exit 9
 # a private copy of the worktree so that several confirmations can run in parallel
 work=$(mktemp -d /tmp/confirm.XXXXXX)
-git -C /repo worktree add -q --detach $work/wt HEAD || exit 9
+base=$(git -C $wt rev-parse HEAD 2>/dev/null || echo HEAD)   # the commit the change was written against
+git -C /repo worktree add -q --detach $work/wt $base || exit 9
 cd $work/wt
 run_demo() { (cd $work/wt && PYTHONPATH=$work/wt timeout 1800 /venv/bin/python $src/demo.py > $work/demo.$1.log 2>&1; echo $?); }
 clean_rc=$(run_demo clean)
@@ -18,9 +19,9 @@ git apply $src/patch.diff || { echo "$prop $m: patch does not apply"; git -C /re
 mut_rc=$(run_demo mutant)
 PYTHONPATH=$work/wt timeout 3000 /venv/bin/python -m pytest -q -p no:cacheprovider --timeout=900 --continue-on-collection-errors \
    --junitxml=$work/junit.xml > $work/suite.log 2>&1
-python3 - "$work/junit.xml" "$prop" "$m" "$clean_rc" "$mut_rc" "$src" "$out" <<'PY'
+python3 - "$work/junit.xml" "$prop" "$m" "$clean_rc" "$mut_rc" "$src" "$out" "$base" <<'PY'
 import sys, json, os, shutil, xml.etree.ElementTree as ET
-junit, prop, m, clean_rc, mut_rc, src, out = sys.argv[1:]
+junit, prop, m, clean_rc, mut_rc, src, out, base = sys.argv[1:]
 base = json.load(open('/root/.vp/BASELINE.json'))
 stable = set(base['stable_pass'])
 failed, passed = set(), set()
@@ -41,7 +42,7 @@ try:
     meta = json.load(open(os.path.join(src, 'meta.json')))
 except Exception:
     pass
-meta.update({"property": prop, "confirmed_by_me": ok, "demo_rc_clean_tree": int(clean_rc), "demo_rc_with_change": int(mut_rc),
+meta.update({"property": prop, "confirmed_by_me": ok, "base_commit": base, "demo_rc_clean_tree": int(clean_rc), "demo_rc_with_change": int(mut_rc),
              "stable_tests_broken_by_change": broken, "stable_tests_missing": missing[:5],
              "what_i_ran": "tools/confirm_seed.sh %s %s: fresh worktree of /repo HEAD; demo on clean tree; git apply patch.diff; demo; "
                            "full suite (BASELINE.json cmd) compared with the stable_pass list" % (prop, m)})
